@@ -63,7 +63,7 @@ def case(item):
 
 
 def cases_for(tier):
-    cs = streams.bound01() + streams.sizes_lengths() + streams.big_tiles(tier == "thorough") + streams.tile_grids(tier == "thorough") + streams.sb128_corners(tier == "thorough") + streams.profile_depth()
+    cs = streams.bound01() + streams.sizes_lengths() + streams.big_tiles(tier == "thorough") + streams.tile_grids(tier == "thorough") + streams.sb128_corners(tier == "thorough") + streams.profile_depth() + streams.palette_blocks(tier == "thorough")
     if tier == "thorough":
         cs += streams.bound01(sizes=((66, 66),), contents=("noise", "flat"))
         cs += streams.cross_depth_sb_pipe_preset()
